@@ -245,6 +245,10 @@ def three_roll_cases(chk, rng):
                     rpe = ThreeRollPass(label="p", roll=mkroll(g), **{given: ref[given]})
                     for k in rng.sample(list(ref), 3):
                         getattr(rpe, k)
+                    try:
+                        rpe.usable_width, rpe.usable_cross_section
+                    except Exception:      # noqa
+                        pass
                     new = ref[given] + (1e-3 if given != 'gap' else 5e-4)
                     setattr(rpe, given, new)
                     rpe.reevaluate_cache()
@@ -254,6 +258,14 @@ def three_roll_cases(chk, rng):
                         if abs(a - b) > 1e-9 * scale:
                             return chk.fail('three-edit', f"{name}: three-roll pass defined by {given}, all members read, {given} changed to {new} and the cache "
                                             f"re-evaluated: {k} = {a}, a fresh pass with the new {given} gives {b}", dict(data, given=given))
+                    try:
+                        ua, ub = rpe.usable_cross_section, fresh.usable_cross_section
+                        wa, wb = float(rpe.usable_width), float(fresh.usable_width)
+                    except Exception:      # noqa
+                        ua = ub = None
+                    if ua is not None and (abs(wa - wb) > 1e-9 * scale or ua.symmetric_difference(ub).area > 1e-9 * ub.area):
+                        return chk.fail('three-edit', f"{name}: three-roll pass defined by {given}, all members and the usable cross-section read, {given} changed to {new} and "
+                                        f"the cache re-evaluated: usable width {wa} / area {ua.area}, a fresh pass with the new {given} gives {wb} / {ub.area}", dict(data, given=given))
                     ca = [np.array(c.coords) for c in rpe.contour_lines.geoms]
                     cb = [np.array(c.coords) for c in fresh.contour_lines.geoms]
                     if any(not same_curve(x, y, 1e-9 * scale) for x, y in zip(ca, cb)):
@@ -307,6 +319,30 @@ def solved_then_edited(chk):
                                 f"given the new {given}", data)
 
 
+def short_lived_passes(chk):
+    """passes that are built, read and dropped one after another (the addresses of their contour objects are re-used): what a pass reports for its opening is
+    its own - grooves of equal usable width and different depth, alternately, compared with two passes that are kept alive"""
+    import gc
+    from pyroll.core import RollPass, ThreeRollPass, Roll, BoxGroove
+    for cls, pad in ((RollPass, {}), (ThreeRollPass, {'pad_angle': 30})):
+        grooves = [BoxGroove(usable_width=40e-3, depth=d, r1=2e-3, r2=3e-3, flank_angle=70, **pad) for d in (8e-3, 12e-3)]
+        mk = lambda g: cls(label="p", roll=Roll(groove=g, nominal_radius=160e-3), gap=2e-3, target_width=36e-3)      # noqa
+        keep = [mk(g) for g in grooves]
+        ref = [(float(p.usable_cross_section.area), float(p.target_cross_section_area)) for p in keep]
+        if abs(ref[0][0] - ref[1][0]) < 1e-9:
+            continue
+        for i in range(60):
+            p = mk(grooves[i % 2])
+            got = (float(p.usable_cross_section.area), float(p.target_cross_section_area))
+            del p
+            gc.collect()
+            chk.cov['evaluations'] += 1
+            if any(abs(a - b) > 1e-9 * abs(b) for a, b in zip(got, ref[i % 2])):
+                return chk.fail('usable-stale', f"{cls.__name__} objects built, read and dropped one after another over two box grooves of equal usable width (depths 8 and 12 mm, target width "
+                                f"36 mm): number {i} (depth {8 if i % 2 == 0 else 12} mm) reports usable / target cross-section areas {got}, a pass of the same description that "
+                                f"is kept alive reports {ref[i % 2]}", {'case': 'short-lived passes', 'rolls': 2 if cls is RollPass else 3, 'i': i})
+
+
 def rot_area(A, deg):
     from shapely.geometry import Polygon
     return Polygon(rot(A, deg)).area
@@ -336,6 +372,8 @@ def run(chk):
         three_roll_cases(chk, rng)
     if not [f for f in chk.failures if f.key not in ('three-roll-gap-zero', 'three-height-flat-groove')]:
         solved_then_edited(chk)
+    if not [f for f in chk.failures if f.key not in ('three-roll-gap-zero', 'three-height-flat-groove')]:
+        short_lived_passes(chk)
     chk.cov['distinct_nontrivial'] += chk.cov['evaluations']
     chk.sample({'groove': GC.CATALOGUE[0][0], 'kwargs': GC.CATALOGUE[0][1], 'gap': 0.001, 'rolls': 2})
     chk.cov['rule'] = ("every catalogue groove with pad angle 0 in a two-roll pass and with pad angle 30 in a three-roll pass, gaps 0, 1 mm and a "
